@@ -76,7 +76,8 @@ pub fn gen_for_generator(rng: &mut Rng, idx: usize, risky_pct: usize, depth: usi
             4 => {
                 // an input parameter spelled like the generated server method's own `call` argument
                 idl.members.push(Member { kind: MKind::Method, name: "RiskyCallField".into(), comments: vec![], a: Ty::Struct(vec![("call".into(), Ty::Int), ("x".into(), Ty::Str)]), b: Some(Ty::Struct(vec![("call".into(), Ty::Int)])) });
-                risky = Some(("field-named-call".to_string(), "RiskyCallField.call".to_string()));
+                // compiles on the unchanged tree: part of the clean class (and inherent risks of
+                // the rest of the definition keep their own label)
             }
             5 => {
                 // a method whose snake_case name is an item of the generated server trait
